@@ -40,13 +40,17 @@ def strategy_(draw, tier):
         for i in range(nz):
             nm = draw(st.sampled_from(["pack.zip", "lib.jar", "A.ZIP", "w.war"]))
             members = []
-            for j in range(draw(st.sampled_from([1, 2, 3, 5]))):
+            for j in range(draw(st.sampled_from([1, 2, 3, 5, 8]))):
                 members.append({"n": "m%d_%d.%s" % (i, j, draw(st.sampled_from(["txt", "log", "rs"]))),
                                 "size": draw(st.sampled_from([0, 5, 10, 100, 5000, 4000000, 9000000])),
                                 "deflate": True})
             dirs = [()] + trees.dirs_of(spec)
             d = draw(st.sampled_from(dirs))
             trees.subtree(spec, d)["%d%s" % (i, nm)] = {"t": "z", "members": members}
+    if arch and draw(st.booleans()):
+        # a filter that separates archive members from each other (some stored early are rejected)
+        case["where"] = draw(st.sampled_from(["name like '%.txt'", "name like '%.log'", "name like '%.rs'", "size >= 100",
+                                              "size < 100", "name like '[%' and size > 5", "ext = 'txt' or name like '%.rs'"]))
     case["archives"] = arch
     tops = [n for n, nd in spec.items() if nd["t"] == "d" and c05.c02 and n.replace(".", "").replace("_", "").isalnum()
             and not n[0].isdigit() and n not in ("size", "bin", "mode", "name")]
